@@ -72,7 +72,58 @@ def mk_case(i, n, qs, remaining_last, side, var_idx=None, style=0):
     return case, gen
 
 
+def mk_shared_case(i, rng):
+    """one portion variable read several times: in two clauses of one allotment, in a source and a destination
+    allotment, and in two statements; every text style. Account names are disjoint between statements."""
+    p = rng.choice([Fraction(1, 2), Fraction(1, 4), Fraction(1, 3), Fraction(3, 10), Fraction(1, 8), Fraction(2, 5), Fraction(0), Fraction(1, 1000)])
+    style = rng.randrange(3)
+    vars_ = {"p": portion_text(p, style)}
+    stmts, parts, texts, decls = [], [], [], ["portion $p"]
+    for k in range(rng.randrange(1, 4)):
+        n = rng.choice([rng.randrange(0, 40), 11, 10, 7, 2 ** 64 + rng.randrange(0, 50)])
+        uses = 2 if 2 * p <= 1 and rng.random() < 0.6 else 1
+        qs = [p] * uses
+        rest = 1 - sum(qs)
+        if rest > 0 and rng.random() < 0.5:
+            qs.append(rest)
+            tail = [portion_text(rest, rng.randrange(3))]
+        else:
+            qs.append(None)
+            tail = ["remaining"]
+        if rng.random() < 0.5:
+            qs.reverse()
+            ptexts = tail + ["$p"] * uses
+        else:
+            ptexts = ["$p"] * uses + tail
+        names = ["s%dp%d" % (k, j) for j in range(len(qs))]
+        side = rng.choice(["dst", "src"])
+        amount = "[COIN %d]" % n
+        if n >= 2 ** 63:                      # a literal that large is the known finding number-literal-out-of-range
+            vars_["amt%d" % k] = "COIN %d" % n
+            decls.append("monetary $amt%d" % k)
+            amount = "$amt%d" % k
+        if side == "dst":
+            texts.append("send %s (\n  source = @world\n  destination = { %s }\n)" % (
+                amount, " ".join("%s to @%s" % (t, nm) for t, nm in zip(ptexts, names))))
+            stmts.append(('send', 'COIN', n, ('acct', 'world', 0), ('allot', [(q, ('to', ('acct', nm))) for q, nm in zip(qs, names)])))
+        else:
+            texts.append("send %s (\n  source = { %s }\n  destination = @dest%d\n)" % (
+                amount, " ".join("%s from @%s allowing unbounded overdraft" % (t, nm) for t, nm in zip(ptexts, names)), k))
+            stmts.append(('send', 'COIN', n, ('allot', [(q, ('unb', nm)) for q, nm in zip(qs, names)]), ('acct', 'dest%d' % k)))
+        parts.append({"qs": qs, "n": n, "names": names, "side": side})
+    case = {"id": i, "op": "exec", "script": "vars {\n" + "".join("  %s\n" % d for d in decls) + "}\n" + "\n".join(texts) + "\n", "vars": vars_, "balances": {}, "meta": {},
+            "store": "exact", "failAt": -1, "perStmt": False}
+    gen = {"stmts": stmts, "features": ["allot-shared-variable"], "var_error": None, "parts": parts,
+           "qs": parts[0]["qs"], "n": parts[0]["n"], "side": parts[0]["side"], "names": parts[0]["names"]}
+    return case, gen
+
+
 def oracle(case, gen, go):
+    if gen.get("parts"):
+        out = []
+        for part in gen["parts"]:
+            out += oracle(case, dict(gen, parts=None, **part), go)
+        return out
     qs, n, names, side = gen["qs"], gen["n"], gen["names"], gen["side"]
     out = []
     total = sum((q for q in qs if q is not None), Fraction(0))
@@ -161,6 +212,12 @@ def run(chk):
                            var_idx=(0 if len(cases) % 3 == 0 else None), style=len(cases) % 3)
             cases.append(c)
             gens.append(g)
+
+    # one portion variable read at several places and in several statements
+    for _ in range(chk.size(600, 8000)):
+        c, g = mk_shared_case(len(cases), rng)
+        cases.append(c)
+        gens.append(g)
 
     gos = runner.run_go(cases)
     models = P.run_model(cases, gos)
